@@ -345,6 +345,15 @@ class C01(ClientProp):
             out.append(one(rng, 1, ch, zone=z, t0=t0))
         for ch in chunks(grid_type2_ops(Ctx("quick", ctx.seed), rng), 20):
             out.append(one(rng, 2, ch))
+        # names around the 32-byte limit in scripts whose characters take 1..4 bytes (always part of the run)
+        edge = []
+        for ch_, nb in ((0x5D0, 2), (0x4E2D, 3), (0x1F600, 4), (0xE9, 2), (0x61, 1)):
+            for nbytes in (30, 31, 32, 33, 34, 36, 40, 48, 64):
+                k = nbytes // nb
+                if 2 <= k <= 40:
+                    edge.append(op1(rng, "set_device_name", {"cps": [ch_ + (q % 5 if nb > 1 else q % 26) for q in range(k)]}))
+        for ch in chunks(edge, 15):
+            out.append(one(rng, 1, ch, zone=z, t0=t0))
         # thermostat control with IR codes of every interesting length
         for k in range(ctx.pick(40, 400)):
             ir = gen_irset(rng, long_codes=True, small=True, special=[True, False][k % 2], toggle=[True, False, False][k % 3])
